@@ -130,7 +130,7 @@ EXPORT errno_t _memccpy_s_chk(void *restrict dest, rsize_t dmax,
         }
 
         *dp = *sp;
-        if (*dp == c) { /* found */
+        if (*dp == (uint8_t)c) { /* found; c is converted as by memccpy() */
 #ifdef SAFECLIB_STR_NULL_SLACK
             /* clear the rest behind the stop character, which stays */
             if (n > 1) {
